@@ -5,7 +5,7 @@ Property theorems only.  Model: `Model/Topics.lean` (tries of maps +
 `nextTopicLevel`, as repaired by the three `fix:` commits).  Specification:
 `Spec/Match.lean` (§4.7) and `Spec/TopicStore.lean`.
 -/
-import Mqtt.Proofs.TopicsHistory
+import Mqtt.Proofs.TopicsRetainedHistory
 
 namespace Mqtt.Properties.C06
 open Mqtt.Model.Topics Mqtt.Proofs.Topics Mqtt.Iface.Topics
@@ -199,5 +199,97 @@ theorem C06_levels_full_counterexample : ¬ C06_levels_full := by
   intro h
   have := h [47, 97] (by decide)
   exact absurd this (by decide)
+
+/-! ### 5. the retained trie -/
+
+/-- For every retained trie with unique map keys and every list of filter
+levels, `rmatch` succeeds and returns - up to map order - exactly the stored
+messages whose path is selected by the filter walk `rwalk`. -/
+theorem C06_rmatch_char (n : RNode) (fs : List Level) (hwf : RWF n) :
+    ∃ r, n.rmatchL fs true = some r ∧
+      r.Perm ((absR n).filterMap (fun e => if rwalk fs e.1 then some e.2 else none)) :=
+  rmatch_char n fs hwf
+
+/-- For valid filters that walk is section 4.7 matching.  (For an invalid list
+with `#` before the end it is not: `rmatch` stops at the first `#`.) -/
+theorem C06_rwalk_eq_spec (fs p : List Level) (hv : Mqtt.Spec.Match.validFilterLevels fs = true) :
+    rwalk fs p = Mqtt.Spec.Match.matchLevels fs p :=
+  rwalk_eq_matchLevels fs hv p
+
+theorem C06_rwalk_invalid_counterexample :
+    rwalk [MWC, [97]] [[98]] = true ∧ Mqtt.Spec.Match.matchLevels [MWC, [97]] [[98]] = false := by decide
+
+example :
+    let a : Level := [97]; let b : Level := [98]
+    let m1 : RMsg := { topic := [97], qos := 1, payload := [1] }
+    let m2 : RMsg := { topic := [97, 47, 98], qos := 0, payload := [2] }
+    let t : RNode := .mk none [(a, .mk (some m1) [(b, .mk (some m2) [])])]
+    RWF t ∧ t.rmatchL [a, MWC] true = some [m1, m2] ∧ t.rmatchL [a, SWC] true = some [m2] := by
+  refine ⟨?_, by decide, by decide⟩
+  simp [RWF_mk]
+
+/-- `rinsert` / `rremove` on a well-formed retained trie: well-formed result;
+storing under a path replaces that path's message and leaves all others;
+clearing a path deletes exactly that path's message - in particular the
+message of a parent survives the pruning of its child; failed walks change no
+entry. -/
+theorem C06_retained_trie_refines (n : RNode) (ls : List Level) (m : RMsg) (hwf : RWF n) :
+    (∀ ok, RWF (n.rinsertL ls ok m)) ∧ (∀ ok, RWF (n.rremoveL ls ok).1) ∧
+    (absR (n.rinsertL ls true m)).Perm ((absR n).filter (fun e => !(e.1 == ls)) ++ [(ls, m)]) ∧
+    (absR (n.rinsertL ls false m)).Perm (absR n) ∧
+    (absR (n.rremoveL ls true).1).Perm ((absR n).filter (fun e => !(e.1 == ls))) ∧
+    n.rremoveL ls false = (n, false) :=
+  ⟨fun ok => rinsertL_RWF ls ok m n hwf, fun ok => rremoveL_RWF ls ok n hwf, rinsertL_absR ls m n hwf,
+    rinsertL_absR_false ls m n hwf, rremoveL_absR ls n hwf, rremoveL_false ls n hwf⟩
+
+/-- Pruning invariant of the retained trie: every node below the root has a
+child or holds a message; kept by successful inserts and by all removes. -/
+theorem C06_retained_pruned_preserved (n : RNode) (ls : List Level) (hwf : RWF n) (hp : RPruned n) :
+    (∀ m, RPruned (n.rinsertL ls true m)) ∧ (∀ ok, RPruned (n.rremoveL ls ok).1) :=
+  ⟨fun m => rinsertL_RPruned ls m n hp, fun ok => rremoveL_RPruned ls ok n hwf hp⟩
+
+/-- Over histories of good operations the retained trie holds exactly the
+abstract store's retained messages (the last non-empty message per topic). -/
+theorem C06_retained_store_refines (ops : List Op) (hg : ∀ op ∈ ops, goodOp op = true) :
+    RWF (mrun ops).rroot ∧
+    (absR (mrun ops).rroot).Perm ((srun ops).rets.map (fun r => (split r.topic, toRMsg r))) :=
+  ⟨(run_rinv ops hg).wf, (run_rinv ops hg).perm⟩
+
+/-- The full statement of the retained part of C06. -/
+def C06_retained_full : Prop :=
+  ∀ (ops : List Op) (f : List UInt8), validFilter f = true →
+    ∃ r, (mrun ops).retained f = some r ∧
+      (r.map toRet).Perm ((srun ops).rets.filter (fun r => topicMatches f r.topic))
+
+/-- False of the code as it is (finding B3): filter "/a" returns the message retained for "x/a". -/
+theorem C06_retained_full_counterexample : ¬ C06_retained_full := by
+  intro h
+  obtain ⟨r, hr, hp⟩ := h [.retain [120, 47, 97] 0 [1]] [47, 97] (by decide)
+  have h1 : (mrun [.retain [120, 47, 97] 0 [1]]).retained [47, 97] =
+      some [{ topic := [120, 47, 97], qos := 0, payload := [1] }] := by decide
+  have h2 : (srun [.retain [120, 47, 97] 0 [1]]).rets.filter (fun r => topicMatches [47, 97] r.topic) = [] := by
+    decide
+  rw [h1] at hr
+  rw [h2] at hp
+  cases hr
+  exact absurd hp.length_eq (by decide)
+
+/-- The part that holds: after any history of good operations (no empty
+level, no '$'-led level, retained topics are valid names) and for every such
+valid filter, `Retained` returns exactly the last non-empty message of every
+topic matching the filter under section 4.7. -/
+theorem C06_retained_partial (ops : List Op) (f : List UInt8)
+    (hg : ∀ op ∈ ops, goodOp op = true) (hgf : good f = true) (hv : validFilter f = true) :
+    ∃ r, (mrun ops).retained f = some r ∧
+      (r.map toRet).Perm ((srun ops).rets.filter (fun r => topicMatches f r.topic)) :=
+  retained_refines (mrun ops) (srun ops).rets f (run_rinv ops hg) hgf hv
+
+/-- non-vacuity: replace, clear a child (the parent's message survives), query with `#` and `+` -/
+example :
+    let ops : List Op := [.retain [97] 1 [1], .retain [97, 47, 98] 0 [2], .retain [97, 47, 98] 0 [3],
+                          .retain [97, 47, 99] 1 [4], .retain [97, 47, 99] 0 []]
+    (∀ op ∈ ops, goodOp op = true) ∧ good [97, 47, 35] = true ∧ validFilter [97, 47, 35] = true ∧
+      ((mrun ops).retained [97, 47, 35]).map (·.map toRet) = some [⟨[97], 1, [1]⟩, ⟨[97, 47, 98], 0, [3]⟩] ∧
+      ((mrun ops).retained [97, 47, 43]).map (·.map toRet) = some [⟨[97, 47, 98], 0, [3]⟩] := by decide
 
 end Mqtt.Properties.C06
